@@ -142,6 +142,19 @@ def _container_rules(F, R, nm, ty, m, lay, cs):
                 txt = "DATA_OFFSET %s = rustc offset of GenericVec.data %s = C rule %s; len at 0; GenericVec repr(C) %s; MIN_SIZE %s" % (
                     do, f["data"]["offset"] + base_off, m["data_offset"], (inner["repr"] or {}).get("c"), cs.get("MIN_SIZE"))
         R.ob("L5.header", nm, "DATA_OFFSET", ok, "%s: %s" % (nm, txt), where=ty)
+        # own-bytes round trip on the frozen formulas (F1): from(to(cap)) == cap for the instance's constants
+        if m["kind"] == "vec" and m.get("elem_size"):
+            a, off, sz = m["align"], m["data_offset"], m["elem_size"]
+            bad = []
+            for room in range(0, 200):
+                cap = (room // a * a) // sz                    # capacities a mapped view can have: ptr_from_bytes (F1 formula)
+                to_len = ceil_mul(off + cap * sz, a)          # ptr_to_bytes (F1 formula)
+                back = ((to_len - off) // a * a) // sz         # ptr_from_bytes again
+                if back != cap or to_len > off + room // a * a:
+                    bad.append((cap, to_len, back))
+            R.ob("F1.own-bytes-roundtrip", nm, "capacity", not bad and off % a == 0,
+                 "%s: with DATA_OFFSET %d, SIZE %d, ALIGN %d the value's own bytes stay inside the mapped slice and map back to the same capacity for every slice length 0..199 "
+                 "(arithmetic on the F1 formulas)%s" % (nm, off, sz, a, "" if not bad else " -- fails for %s" % bad[:3]), where=ty)
         R.ob("L5.len-fits", nm, "L::SIZE", m["len_size"] <= m["data_offset"], "%s: the length word (%d bytes) fits before the data (%d)" % (
             nm, m["len_size"], m["data_offset"]), nontrivial=False, where=ty)
     else:
